@@ -10,7 +10,7 @@ class C02(Spec):
     component = 'tree'
     driver = 'tree'
     lib_srcs = ['bintree.c', 'rbtree.c']
-    header_words = ('keys', 'kind')
+    header_words = ('keys', 'kind', 'cmpmode')
     rule = ('cases = corpus + one case per edge of the breadth-first closure of the Coq model of the red-black tree '
             '(all shapes and colourings reachable with 7 elements, keys 0 0 1 1 2 2 3 and 3 1 0 2 1 3 0, in the quick tier; '
             '8 and 9 elements in the thorough tier; insert, erase by key, height) + seeded random histories (up to ~60 '
@@ -80,22 +80,31 @@ class C02(Spec):
             tot['states'] += st.get('states', 0)
             tot['transitions'] += st.get('transitions', 0)
             tot['closed'] = tot['closed'] and st.get('closed', False)
-        return cases, tot
+        return T.with_cmpmodes(cases), tot
 
     def random_cases(self, tier, seed):
         rnd = random.Random(seed * 104729 + 202)
-        n = 250 if tier == 'quick' else 1200
+        n = 300 if tier == 'quick' else 1500
         cases = []
         for ci in range(n):
-            if tier == 'quick':
+            if ci % 2 == 0:
+                # fill, then drain by erasing held keys in random order: 10-40 nodes, distinct or duplicate keys
+                target = rnd.randrange(10, 41)
+                length = rnd.choice([2, 3]) * target + 10
+                nkeys = rnd.choice([2, 4, 8, 1000, 1000])
+                pattern = rnd.choice(['grow-drain', 'grow-drain', 'asc', 'desc', 'zigzag'])
+            elif tier == 'quick':
                 target = rnd.choice([4, 8, 12, 20, 30, 45, 60])
                 length = rnd.choice([30, 60, 120, 180])
+                nkeys = rnd.choice([1, 2, 3, 5, 8, 16, 40, 1000])
+                pattern = None
             else:
                 target = rnd.choice([8, 20, 45, 60, 100, 200, 245])
                 length = rnd.choice([60, 150, 300, 500])
-            nkeys = rnd.choice([1, 2, 3, 5, 8, 16, 40])
+                nkeys = rnd.choice([1, 2, 3, 5, 8, 16, 40, 1000])
+                pattern = None
             cases.append(T.random_history(rnd, 'rb', 'rnd%d' % ci, target, length, nkeys,
-                                          readers=(ci % 4 == 0)))
+                                          readers=(ci % 4 == 1), pattern=pattern))
         return cases
 
 
